@@ -166,8 +166,8 @@ Proof. exact load_in_constraints. Qed.
 
 Definition sample_decl : decl :=
   mk_decl (-1) 1 (-1) 45 (-1) (-1) (-1) false false
-    [ mk_ldecl [49;50;55;46;48;46;48;46;49;58;56;48]%N 0 (-1) None (-1) 29 (-1) (-1) None (-1) (-1) (-1) (-1) (-1) (-1) None (blank_pay 8);
-      mk_ldecl [49;50;55;46;48;46;48;46;49;58;53;51]%N 3 (-1) None (-1) (-1) (-1) (-1) None (-1) (-1) (-1) 65000 (-1) (-1) None (blank_pay 8) ]
+    [ mk_ldecl [49;50;55;46;48;46;48;46;49;58;56;48]%N 0 (-1) None (-1) 29 (-1) (-1) None (-1) (-1) (-1) (-1) (-1) (-1) None (blank_pay 8) default_ext_http;
+      mk_ldecl [49;50;55;46;48;46;48;46;49;58;53;51]%N 3 (-1) None (-1) (-1) (-1) (-1) None (-1) (-1) (-1) 65000 (-1) (-1) None (blank_pay 8) [] ]
     [ mk_cdecl [97]%N 0 1 (-1) (-1) (-1) (-1) (-1) true (Some [47]%N) [-1; -1; -1; -1; -1] []
         [ mk_fdecl [49;50;55;46;48;46;48;46;49;58;56;48]%N (Some [104]%N) (Some [47;97]%N) 2 None (-1) false (-1) (-1) (-1) [TN 0] [];
           mk_fdecl [49;50;55;46;48;46;48;46;49;58;52;52;51]%N (Some [104]%N) None (-1) None 3 true (-1) 1 (-1) [TN 0] [] ]
@@ -197,10 +197,10 @@ Example violations_rejected_nonvacuous :
   /\ load (mk_decl (-1) 1 (-1) 45 (-1) (-1) (-1) false false (d_listeners sample_decl ++ d_listeners sample_decl) (d_clusters sample_decl)) = Err EAddrInUse
   /\ load (mk_decl (-1) 1 (-1) 45 (-1) (-1) (-1) false false (d_listeners sample_decl) (rev (d_clusters sample_decl) ++ d_clusters sample_decl)) = Err EDeserialize
   /\ load (mk_decl (-1) 1 (-1) 45 (-1) (-1) (-1) false false
-             (mk_ldecl [49;50;55;46;48;46;48;46;49;58;57]%N 0 (-1) None (-1) (-1) (-1) (-1) None (-1) (-1) (-1) (-1) (-1) (-1) None [] :: d_listeners sample_decl)
+             (mk_ldecl [49;50;55;46;48;46;48;46;49;58;57]%N 0 (-1) None (-1) (-1) (-1) (-1) None (-1) (-1) (-1) (-1) (-1) (-1) None [] [] :: d_listeners sample_decl)
              (d_clusters sample_decl)) = Err EWrongFrontendProtocol
   /\ load (mk_decl (-1) 1 (-1) 45 (-1) (-1) (-1) false false
-             (mk_ldecl [57]%N 7 (-1) None (-1) (-1) (-1) (-1) None (-1) (-1) (-1) (-1) (-1) (-1) None [] :: d_listeners sample_decl)
+             (mk_ldecl [57]%N 7 (-1) None (-1) (-1) (-1) (-1) None (-1) (-1) (-1) (-1) (-1) (-1) None [] [] :: d_listeners sample_decl)
              (d_clusters sample_decl)) = Err EDeserialize.
 Proof. vm_compute. repeat split. eexists; reflexivity. Qed.
 
